@@ -20,7 +20,7 @@ META = {
     "outside": ["DirichletClassificationLikelihood fantasy likelihoods", "heteroskedastic noise beyond an exact-GP noise model with N<=3 inputs", "rounding"],
     "assumptions": ["reals for floats", "softplus below its linear threshold", "function covariance declared by Cholesky factor"],
 }
-TIMEOUT_S = {"quick": 420, "thorough": 2400}
+TIMEOUT_S = {"quick": 900, "thorough": 2400}
 LOG_SQRT_2PI = math.log(math.sqrt(2 * math.pi))
 
 
